@@ -160,7 +160,7 @@ def main(tier):
                 "generated file with extra cells containing quotes, delimiters and newlines; each run with "
                 + ("3 of the 6" if tier == "quick" else "all 6") + " run methods; runs end by stop, fail or exhaustion as the programs decide. "
                 "non-trivial = distinct (group, method, file).")
-    rep.assumptions = ["TLC; ArchiveTrace.tla", "printouts.txt is parsed by its '---- PRINTOUT:' section headers (printed lines contain no newline)",
+    rep.assumptions = ["TLC; ArchiveTrace.tla", "printouts.txt is parsed by its '---- PRINTOUT:' section headers; a printed text with a line break is compared line by line",
                        "variables are compared after JSON coercion (the archive is JSON)"]
     return rep.finish()
 
